@@ -3,13 +3,17 @@ CONSTANTS
   Orders <- OrdersAll
   Dts <- DtsQ
   Targets <- TargQ
-  TsTargets <- TargQ
+  TsTargets <- TargV
   MaxTs = 1
+  MaxSweeps = 0
+  MaxQueued = 2
   PublicQueue = FALSE
+  DtChangeQueued = FALSE
+  FixQ = FALSE
   LeftRenormSite = 0
   FlipWrap = TRUE
   Ls <- LsAll
   Record = FALSE
-  SimLen = 3
+  SimLen = 4
 INVARIANT NotAllBranches
 CHECK_DEADLOCK FALSE
